@@ -28,16 +28,11 @@ type Verdict struct {
 	NonTrivial int // well defined entries with >= 1 counted difference and >= 1 comparable site that agreed with the estimator
 	Substitute int // undefined entries reported as the substitute
 	NaNs       int // undefined entries reported as NaN/Inf
-	BelowP     int // entries below the observed proportion that were exempted (see JudgeOpt.ExemptBelowP)
 }
 
-// JudgeOpt are the tolerances and exemptions of a comparison
+// JudgeOpt are the tolerances of a comparison
 type JudgeOpt struct {
 	Tol
-	// ExemptBelowP: do not report a corrected distance below the observed proportion of differences
-	// when it equals the estimator evaluated with base frequencies normalised over all cells (finding
-	// "pi-over-gap-cells" of props/c07/FINDINGS.md); such entries are counted in Verdict.BelowP
-	ExemptBelowP bool
 }
 
 func notNumber(x float64) bool { return math.IsNaN(x) || math.IsInf(x, 0) }
@@ -47,10 +42,10 @@ func notNumber(x float64) bool { return math.IsNaN(x) || math.IsInf(x, 0) }
 //   - square of the right size, symmetric, zero diagonal, 0 outside the ranges
 //   - a defined entry equals the estimator; without a counted difference it is 0 within 1e-12; a
 //     finite corrected distance is not below the observed proportion of differences
-//   - an undefined entry is NaN, +-Inf or the substitute 2*max (max over the defined entries), and
+//   - an undefined entry (saturation, no comparable site) is NaN, +-Inf or the substitute 2*max (max over the defined entries), and
 //     NaN/Inf only when there is no positive maximum; never anything else
 //   - ill-conditioned entries are not judged, except that they may not be below the observed proportion
-func Judge(got [][]float64, r *Ref, opt Options, jo JudgeOpt, allCells bool) (v Verdict, err error) {
+func Judge(got [][]float64, r *Ref, opt Options, jo JudgeOpt) (v Verdict, err error) {
 	tol := jo.Tol
 	n := r.N
 	if len(got) != n {
@@ -116,10 +111,7 @@ func Judge(got [][]float64, r *Ref, opt Options, jo JudgeOpt, allCells bool) (v 
 					return v, fmt.Errorf("%s = %.15g, the estimator gives %.15g (relative difference %.3g)", where, g, e.Value, math.Abs(g-e.Value)/math.Max(math.Abs(g), math.Abs(e.Value)))
 				}
 				if belowP() {
-					if !(jo.ExemptBelowP && allCells && UsesPi(opt.Model)) {
-						return v, fmt.Errorf("%s = %.15g is below the observed proportion of differing sites %.15g", where, g, e.P)
-					}
-					v.BelowP++
+					return v, fmt.Errorf("%s = %.15g is below the observed proportion of differing sites %.15g", where, g, e.P)
 				}
 				if e.Diff > 0 && e.Total > 0 {
 					v.NonTrivial++
@@ -130,9 +122,6 @@ func Judge(got [][]float64, r *Ref, opt Options, jo JudgeOpt, allCells bool) (v 
 					v.NaNs++
 				case isSub(g):
 					v.Substitute++
-				case e.Diff == 0 && !(e.Total > 0) && math.Abs(g) <= tol.Abs:
-					// no comparable site and no counted difference: "distance 0" and "undefined" both apply
-					v.Ambiguous++
 				default:
 					return v, fmt.Errorf("%s = %.15g: the estimator is undefined, accepted are NaN, +-Inf or the substitute %v", where, g, subs)
 				}
@@ -144,7 +133,7 @@ func Judge(got [][]float64, r *Ref, opt Options, jo JudgeOpt, allCells bool) (v 
 				if g < 0 {
 					return v, fmt.Errorf("%s = %.15g: negative distance", where, g)
 				}
-				if belowP() && !(jo.ExemptBelowP && allCells && UsesPi(opt.Model)) {
+				if belowP() {
 					return v, fmt.Errorf("%s = %.15g is below the observed proportion of differing sites %.15g", where, g, e.P)
 				}
 			case Huge:
@@ -168,7 +157,7 @@ func JudgeAny(got [][]float64, rows []string, opt Options, readings []Reading, j
 	var msgs string
 	for k, rd := range readings {
 		r := Reference(rows, opt, rd)
-		vk, e := Judge(got, r, opt, jo, rd.PiAllCells && hasGapIn(rows))
+		vk, e := Judge(got, r, opt, jo)
 		if e == nil {
 			if len(readings) > 1 {
 				// does any other reading give another matrix? then an open point was accepted
@@ -203,9 +192,4 @@ func SameRef(a, b *Ref) bool {
 		}
 	}
 	return a.Max == b.Max
-}
-
-func hasGapIn(rows []string) bool {
-	g, _ := Describe(rows)
-	return g
 }
